@@ -332,7 +332,11 @@ static char *new_unique_name(void) {
 }
 
 static Obj *new_anon_gvar(Type *ty) {
-  return new_gvar(new_unique_name(), ty);
+  Obj *var = new_gvar(new_unique_name(), ty);
+  // A static local variable or a string literal belongs to the function
+  // being parsed. It is emitted only if that function is.
+  var->owner = current_fn;
+  return var;
 }
 
 static Obj *new_string_literal(char *p, Type *ty) {
